@@ -445,6 +445,20 @@ class KmipEngine(object):
         return response_batch
 
     def _get_object_type(self, unique_identifier):
+        # Identifiers are handed out as the decimal rendering of an integer
+        # key. Any other text (e.g., '01', ' 1', '1.0') names no object, even
+        # though the data store would coerce it to the key of one.
+        text = str(unique_identifier)
+        if not (text.isdigit() and str(int(text)) == text):
+            self._logger.warning(
+                "Could not identify object type for object: {0}".format(
+                    unique_identifier
+                )
+            )
+            raise exceptions.ItemNotFound(
+                "Could not locate object: {0}".format(unique_identifier)
+            )
+
         try:
             object_type = self._data_session.query(
                 objects.ManagedObject._object_type
